@@ -61,3 +61,32 @@ def run_script(name):
         except Exception:
             pass
         shutil.rmtree(tmp, ignore_errors=True)
+
+
+ALL_SCRIPTS = ['SIM_Model_With_Capitalists.py', 'build_SIM_model.py', 'ex20161103_SIM_2_country.py',
+               'ex20161128_tax_cut_comparison.py', 'ex20161206_SIM_with_deposits.py', 'ex20170221_Model_PC.py',
+               'ex20170225_Model_REG.py', 'ex20170307_Model_REG2.py', 'ex20190131_investment_accelerator.py',
+               'ex20190324_consumption_propensity.py', 'ex201904110_accelerator_gummint.py',
+               'ex20190412_oscillate_wildly.py', 'intro_3_02_example.py', 'intro_3_03_hello_world_1.py',
+               'intro_3_03_hello_world_2.py', 'intro_3_03_hello_world_3.py', 'intro_3_03_hello_world_4.py',
+               'intro_3_05_variable_names_1.py', 'intro_3_05_variable_names_2.py', 'intro_5_03_no_tax_SIM.py',
+               'intro_5_04_SIMEX1.py', 'intro_6_04_externalsector.py', 'intro_6_06_gold_standard_G.py',
+               'intro_X_XX_sim_fiscal.py', 'intro_X_XX_sim_growing_fiscal.py', 'intro_X_XX_sim_multiplier.py',
+               'sfcmod_external_sector.py']
+FAST_SCRIPTS = ['ex20161206_SIM_with_deposits.py', 'ex20190131_investment_accelerator.py',
+                'ex20190324_consumption_propensity.py', 'intro_3_02_example.py', 'intro_5_04_SIMEX1.py',
+                'intro_6_04_externalsector.py', 'intro_X_XX_sim_growing_fiscal.py', 'intro_X_XX_sim_multiplier.py',
+                'intro_3_05_variable_names_2.py']
+
+
+def run_scripts(names, rec):
+    """Run bundled example scripts (realistic programs that already exist) under whatever monitors are installed."""
+    ran = []
+    for n in names:
+        ok, err = run_script(n)
+        if ok:
+            ran.append(n)
+            rec.count('ambient.scripts_run')
+        else:
+            rec.count('ambient.script_failed')
+    return ran
